@@ -260,7 +260,7 @@ def run_case(case) -> Result:
 
 
 def shards(tier):
-    n = 1200 if tier == "quick" else 30000
+    n = 2000 if tier == "quick" else 30000
     mp = 20 if tier == "quick" else 40
     out = []
     for c in CLASSES:
